@@ -427,6 +427,7 @@ def r4(ctx, R):
     if not div:
         R.bad(sc, sc.node, "section divider test not found", stmt="SECTION_DIVIDER")
     else:
+        # (anchor: SourceStructure._string_lines computes the excluded lines)
         # the divider test is reached only for lines that are not inside a string token: some membership
         # test on a set built from tokenize STRING tokens must fail first
         excl = []
